@@ -169,7 +169,9 @@ func reqFields(x any) (Ev, int, bool) {
 		}
 		return 0
 	}
-	rc := func(fc int, r packet.ReadCoilsRequest) { f["fc"], f["unit"], f["addr"], f["qty"] = fc, int(r.UnitID), int(r.StartAddress), int(r.Quantity) }
+	rc := func(fc int, r packet.ReadCoilsRequest) {
+		f["fc"], f["unit"], f["addr"], f["qty"] = fc, int(r.UnitID), int(r.StartAddress), int(r.Quantity)
+	}
 	switch v := x.(type) {
 	case *packet.ReadCoilsRequestTCP:
 		rc(1, v.ReadCoilsRequest)
@@ -317,50 +319,50 @@ func wrapP[T any](f func([]byte) (T, error)) parseFn {
 
 // every exported parsing entry point of the packet package
 var entries = map[string]parseFn{
-	"ParseTCPRequest":                           wrapP(packet.ParseTCPRequest),
-	"ParseRTURequest":                           wrapP(packet.ParseRTURequest),
-	"ParseRTURequestWithCRC":                    wrapP(packet.ParseRTURequestWithCRC),
-	"ParseTCPResponse":                          wrapP(packet.ParseTCPResponse),
-	"ParseRTUResponse":                          wrapP(packet.ParseRTUResponse),
-	"ParseRTUResponseWithCRC":                   wrapP(packet.ParseRTUResponseWithCRC),
-	"ParseReadCoilsRequestTCP":                  wrapP(packet.ParseReadCoilsRequestTCP),
-	"ParseReadCoilsRequestRTU":                  wrapP(packet.ParseReadCoilsRequestRTU),
-	"ParseReadDiscreteInputsRequestTCP":         wrapP(packet.ParseReadDiscreteInputsRequestTCP),
-	"ParseReadDiscreteInputsRequestRTU":         wrapP(packet.ParseReadDiscreteInputsRequestRTU),
-	"ParseReadHoldingRegistersRequestTCP":       wrapP(packet.ParseReadHoldingRegistersRequestTCP),
-	"ParseReadHoldingRegistersRequestRTU":       wrapP(packet.ParseReadHoldingRegistersRequestRTU),
-	"ParseReadInputRegistersRequestTCP":         wrapP(packet.ParseReadInputRegistersRequestTCP),
-	"ParseReadInputRegistersRequestRTU":         wrapP(packet.ParseReadInputRegistersRequestRTU),
-	"ParseWriteSingleCoilRequestTCP":            wrapP(packet.ParseWriteSingleCoilRequestTCP),
-	"ParseWriteSingleCoilRequestRTU":            wrapP(packet.ParseWriteSingleCoilRequestRTU),
-	"ParseWriteSingleRegisterRequestTCP":        wrapP(packet.ParseWriteSingleRegisterRequestTCP),
-	"ParseWriteSingleRegisterRequestRTU":        wrapP(packet.ParseWriteSingleRegisterRequestRTU),
-	"ParseWriteMultipleCoilsRequestTCP":         wrapP(packet.ParseWriteMultipleCoilsRequestTCP),
-	"ParseWriteMultipleCoilsRequestRTU":         wrapP(packet.ParseWriteMultipleCoilsRequestRTU),
-	"ParseWriteMultipleRegistersRequestTCP":     wrapP(packet.ParseWriteMultipleRegistersRequestTCP),
-	"ParseWriteMultipleRegistersRequestRTU":     wrapP(packet.ParseWriteMultipleRegistersRequestRTU),
-	"ParseReadServerIDRequestTCP":               wrapP(packet.ParseReadServerIDRequestTCP),
-	"ParseReadServerIDRequestRTU":               wrapP(packet.ParseReadServerIDRequestRTU),
-	"ParseReadWriteMultipleRegistersRequestTCP": wrapP(packet.ParseReadWriteMultipleRegistersRequestTCP),
-	"ParseReadWriteMultipleRegistersRequestRTU": wrapP(packet.ParseReadWriteMultipleRegistersRequestRTU),
-	"ParseReadCoilsResponseTCP":                 wrapP(packet.ParseReadCoilsResponseTCP),
-	"ParseReadCoilsResponseRTU":                 wrapP(packet.ParseReadCoilsResponseRTU),
-	"ParseReadDiscreteInputsResponseTCP":        wrapP(packet.ParseReadDiscreteInputsResponseTCP),
-	"ParseReadDiscreteInputsResponseRTU":        wrapP(packet.ParseReadDiscreteInputsResponseRTU),
-	"ParseReadHoldingRegistersResponseTCP":      wrapP(packet.ParseReadHoldingRegistersResponseTCP),
-	"ParseReadHoldingRegistersResponseRTU":      wrapP(packet.ParseReadHoldingRegistersResponseRTU),
-	"ParseReadInputRegistersResponseTCP":        wrapP(packet.ParseReadInputRegistersResponseTCP),
-	"ParseReadInputRegistersResponseRTU":        wrapP(packet.ParseReadInputRegistersResponseRTU),
-	"ParseWriteSingleCoilResponseTCP":           wrapP(packet.ParseWriteSingleCoilResponseTCP),
-	"ParseWriteSingleCoilResponseRTU":           wrapP(packet.ParseWriteSingleCoilResponseRTU),
-	"ParseWriteSingleRegisterResponseTCP":       wrapP(packet.ParseWriteSingleRegisterResponseTCP),
-	"ParseWriteSingleRegisterResponseRTU":       wrapP(packet.ParseWriteSingleRegisterResponseRTU),
-	"ParseWriteMultipleCoilsResponseTCP":        wrapP(packet.ParseWriteMultipleCoilsResponseTCP),
-	"ParseWriteMultipleCoilsResponseRTU":        wrapP(packet.ParseWriteMultipleCoilsResponseRTU),
-	"ParseWriteMultipleRegistersResponseTCP":    wrapP(packet.ParseWriteMultipleRegistersResponseTCP),
-	"ParseWriteMultipleRegistersResponseRTU":    wrapP(packet.ParseWriteMultipleRegistersResponseRTU),
-	"ParseReadServerIDResponseTCP":              wrapP(packet.ParseReadServerIDResponseTCP),
-	"ParseReadServerIDResponseRTU":              wrapP(packet.ParseReadServerIDResponseRTU),
+	"ParseTCPRequest":                            wrapP(packet.ParseTCPRequest),
+	"ParseRTURequest":                            wrapP(packet.ParseRTURequest),
+	"ParseRTURequestWithCRC":                     wrapP(packet.ParseRTURequestWithCRC),
+	"ParseTCPResponse":                           wrapP(packet.ParseTCPResponse),
+	"ParseRTUResponse":                           wrapP(packet.ParseRTUResponse),
+	"ParseRTUResponseWithCRC":                    wrapP(packet.ParseRTUResponseWithCRC),
+	"ParseReadCoilsRequestTCP":                   wrapP(packet.ParseReadCoilsRequestTCP),
+	"ParseReadCoilsRequestRTU":                   wrapP(packet.ParseReadCoilsRequestRTU),
+	"ParseReadDiscreteInputsRequestTCP":          wrapP(packet.ParseReadDiscreteInputsRequestTCP),
+	"ParseReadDiscreteInputsRequestRTU":          wrapP(packet.ParseReadDiscreteInputsRequestRTU),
+	"ParseReadHoldingRegistersRequestTCP":        wrapP(packet.ParseReadHoldingRegistersRequestTCP),
+	"ParseReadHoldingRegistersRequestRTU":        wrapP(packet.ParseReadHoldingRegistersRequestRTU),
+	"ParseReadInputRegistersRequestTCP":          wrapP(packet.ParseReadInputRegistersRequestTCP),
+	"ParseReadInputRegistersRequestRTU":          wrapP(packet.ParseReadInputRegistersRequestRTU),
+	"ParseWriteSingleCoilRequestTCP":             wrapP(packet.ParseWriteSingleCoilRequestTCP),
+	"ParseWriteSingleCoilRequestRTU":             wrapP(packet.ParseWriteSingleCoilRequestRTU),
+	"ParseWriteSingleRegisterRequestTCP":         wrapP(packet.ParseWriteSingleRegisterRequestTCP),
+	"ParseWriteSingleRegisterRequestRTU":         wrapP(packet.ParseWriteSingleRegisterRequestRTU),
+	"ParseWriteMultipleCoilsRequestTCP":          wrapP(packet.ParseWriteMultipleCoilsRequestTCP),
+	"ParseWriteMultipleCoilsRequestRTU":          wrapP(packet.ParseWriteMultipleCoilsRequestRTU),
+	"ParseWriteMultipleRegistersRequestTCP":      wrapP(packet.ParseWriteMultipleRegistersRequestTCP),
+	"ParseWriteMultipleRegistersRequestRTU":      wrapP(packet.ParseWriteMultipleRegistersRequestRTU),
+	"ParseReadServerIDRequestTCP":                wrapP(packet.ParseReadServerIDRequestTCP),
+	"ParseReadServerIDRequestRTU":                wrapP(packet.ParseReadServerIDRequestRTU),
+	"ParseReadWriteMultipleRegistersRequestTCP":  wrapP(packet.ParseReadWriteMultipleRegistersRequestTCP),
+	"ParseReadWriteMultipleRegistersRequestRTU":  wrapP(packet.ParseReadWriteMultipleRegistersRequestRTU),
+	"ParseReadCoilsResponseTCP":                  wrapP(packet.ParseReadCoilsResponseTCP),
+	"ParseReadCoilsResponseRTU":                  wrapP(packet.ParseReadCoilsResponseRTU),
+	"ParseReadDiscreteInputsResponseTCP":         wrapP(packet.ParseReadDiscreteInputsResponseTCP),
+	"ParseReadDiscreteInputsResponseRTU":         wrapP(packet.ParseReadDiscreteInputsResponseRTU),
+	"ParseReadHoldingRegistersResponseTCP":       wrapP(packet.ParseReadHoldingRegistersResponseTCP),
+	"ParseReadHoldingRegistersResponseRTU":       wrapP(packet.ParseReadHoldingRegistersResponseRTU),
+	"ParseReadInputRegistersResponseTCP":         wrapP(packet.ParseReadInputRegistersResponseTCP),
+	"ParseReadInputRegistersResponseRTU":         wrapP(packet.ParseReadInputRegistersResponseRTU),
+	"ParseWriteSingleCoilResponseTCP":            wrapP(packet.ParseWriteSingleCoilResponseTCP),
+	"ParseWriteSingleCoilResponseRTU":            wrapP(packet.ParseWriteSingleCoilResponseRTU),
+	"ParseWriteSingleRegisterResponseTCP":        wrapP(packet.ParseWriteSingleRegisterResponseTCP),
+	"ParseWriteSingleRegisterResponseRTU":        wrapP(packet.ParseWriteSingleRegisterResponseRTU),
+	"ParseWriteMultipleCoilsResponseTCP":         wrapP(packet.ParseWriteMultipleCoilsResponseTCP),
+	"ParseWriteMultipleCoilsResponseRTU":         wrapP(packet.ParseWriteMultipleCoilsResponseRTU),
+	"ParseWriteMultipleRegistersResponseTCP":     wrapP(packet.ParseWriteMultipleRegistersResponseTCP),
+	"ParseWriteMultipleRegistersResponseRTU":     wrapP(packet.ParseWriteMultipleRegistersResponseRTU),
+	"ParseReadServerIDResponseTCP":               wrapP(packet.ParseReadServerIDResponseTCP),
+	"ParseReadServerIDResponseRTU":               wrapP(packet.ParseReadServerIDResponseRTU),
 	"ParseReadWriteMultipleRegistersResponseTCP": wrapP(packet.ParseReadWriteMultipleRegistersResponseTCP),
 	"ParseReadWriteMultipleRegistersResponseRTU": wrapP(packet.ParseReadWriteMultipleRegistersResponseRTU),
 	// value-returning entry points: checked for totality and capacity independence only
